@@ -37,5 +37,23 @@ PROPS["C01"] = dict(
                  "plan outcomes not representable in the Go types of some vector are discarded (counted)"],
 )
 
+PROPS["C04"] = dict(
+    pkg="c04", race=False, level="fault_enumeration", prepare="exec_projects", crash_is_violation=True,
+    projects_quick=[("core", ["v0", "w1", "w2"])],
+    projects_thorough=[("core", ["v0", "w1", "w2", "v1", "v2"])],
+    quick=dict(shards=8, timeout=900), thorough=dict(shards=16, timeout=3000),
+    claim="fault enumeration: for every rapid-generated operation the check first runs fault-free to learn the invocation keys, then "
+          "injects every single fault (each resolver and directive invocation x {error, panic}, foreign Go values at abstract "
+          "positions incl. list elements) and compares data, errors, recover-hook count and a follow-up probe request with the "
+          "reference executor; plus random multi-fault sets; for worker_limit 0/1/2; a process crash is a violation (journalled case)",
+    note="single faults are exhaustive per generated operation, operations are sampled; reference executor and gqlparser trusted; "
+         "panics while serialising custom scalars over real transports are covered by the transport checks",
+    technique="fault injection enumerated over generated operations (rapid) with a reference-executor oracle",
+    rule="evaluation = one execution with one injected fault set; non-trivial = fault below the root (nested field, concurrent sibling "
+         "or list-element goroutine) or a multi-fault set containing a panic; distinct by (query, plan seed, fault key, kind)",
+    assumptions=["reference executor models a panic as an error at the position with the recover hook's message",
+                 ],
+)
+
 # properties deliberately not claimed (reason); anything else missing from PROPS is "not built yet"
 NOT_CLAIMED = {}
